@@ -26,6 +26,11 @@ pub struct Params {
     pub known: common::Known,
     /// which parts of a multi-part check to run: all | seq | threads
     pub part: String,
+    /// sanitizer / Miri mode: absolute number of random cases per generator, exhaustive sets skipped,
+    /// small histories
+    pub san_cases: Option<u64>,
+    /// cap for the number of forced schedules per scenario
+    pub max_schedules: Option<usize>,
 }
 
 impl Params {
@@ -34,6 +39,10 @@ impl Params {
     where
         F: Fn(u64, &mut Outcome) + Sync,
     {
+        if self.san() && gen.contains("-exh") {
+            // sanitizer / Miri mode: random generators only (the exhaustive sets run natively)
+            return Outcome::default();
+        }
         match &self.replay {
             Some((g, i)) => {
                 let mut o = Outcome::default();
@@ -45,7 +54,13 @@ impl Params {
             None => par_cases(n, self.threads, 1, f),
         }
     }
+    pub fn san(&self) -> bool {
+        self.san_cases.is_some()
+    }
     pub fn n(&self, quick: u64, thorough: u64) -> u64 {
+        if let Some(c) = self.san_cases {
+            return c.min(quick).max(1);
+        }
         let base = if self.thorough { thorough } else { quick };
         ((base as f64 * self.scale) as u64).max(1)
     }
